@@ -142,6 +142,43 @@ def observe_combination(prev_S, s_k, S, power):
     return memoryless, m_obs, consistent
 
 
+def closed_forms(state, stats, expected_probs):
+    """MStep.tla closed forms on a real fit: noise level from the statistics in force and the DATA mask (not the weights the
+    statistics carry), mixture probabilities = mean responsibilities, summing to one.  Returns (noise_rule, probs_rule)."""
+    noise_rule, probs_rule = "na", "na"
+    try:
+        if "noise_std" in state.dag and "y_x_model" in stats and "model_x_model" in stats and "y" in state.dag:
+            y = state["y"]
+            mask = (y.weight != 0) if getattr(y, "weight", None) is not None else torch.ones_like(y.value, dtype=torch.bool)
+            yv = torch.where(mask, y.value, torch.zeros_like(y.value)).double()
+
+            def val(x):
+                v = (x.value if hasattr(x, "value") else x).double()
+                return torch.where(mask, torch.nan_to_num(v), torch.zeros_like(v))
+            a, b = val(stats["y_x_model"]), val(stats["model_x_model"])
+            got = state["noise_std"].double().reshape(-1)
+            if got.numel() == 1:
+                exp = (((yv ** 2).sum() - 2 * a.sum() + b.sum()) / mask.sum().double()).clamp(min=0).sqrt().reshape(-1)
+            else:
+                exp = (((yv ** 2).sum(dim=(0, 1)) - 2 * a.sum(dim=(0, 1)) + b.sum(dim=(0, 1))) / mask.sum(dim=(0, 1)).double()).clamp(min=0).sqrt()
+            ok = got.shape == exp.shape and bool(((got - exp).abs() <= 2e-4 * (exp.abs() + 1e-3)).all())
+            noise_rule = "ok" if ok else f"differs: noise_std {[round(float(x), 6) for x in got]} vs RMS residual over observed entries {[round(float(x), 6) for x in exp]}"
+    except Exception as e:  # noqa: BLE001
+        noise_rule = f"not evaluable: {type(e).__name__}: {str(e)[:80]}"
+    try:
+        if "probs" in state.dag and expected_probs is not None:
+            got = state["probs"].double().reshape(-1)
+            if not bool(torch.isfinite(expected_probs).all()):
+                # the state the rule is evaluated on is itself non-finite (a tiny cohort whose clusters degenerated): the rule
+                # cannot be judged on it
+                return noise_rule, "na"
+            ok = got.shape == expected_probs.shape and abs(float(got.sum()) - 1.0) <= 1e-5 and bool(((got - expected_probs).abs() <= 1e-5).all())
+            probs_rule = "ok" if ok else f"differs: probs {[round(float(x), 6) for x in got]} (sum {float(got.sum()):.6f}) vs mean responsibilities {[round(float(x), 6) for x in expected_probs]}"
+    except Exception as e:  # noqa: BLE001
+        probs_rule = f"not evaluable: {type(e).__name__}: {str(e)[:80]}"
+    return noise_rule, probs_rule
+
+
 def pop_at_mode(model):
     st = model.state
     for name, var in st.dag.sorted_variables_by_type.get(PopulationLatentVariable, {}).items():
@@ -152,9 +189,10 @@ def pop_at_mode(model):
 
 
 def run_config(model_name, cfg, seed, workdir, n_ind=6, want_params=False, compare_to=None, reuse_algo=False, via_file=False):
-    """Run one real fit under the recorder.  Returns (events, info)."""
+    """Run one real fit under the recorder.  Returns (events, info).  cfg may hold 'missing' (fraction of entries missing inside
+    visits) and 'starve' (mixture model: the second cluster is placed far from every individual before the run)."""
     events = []
-    model, data, df = zoo.make(model_name, n_ind=n_ind, seed=seed % 5)
+    model, data, df = zoo.make(model_name, n_ind=n_ind, seed=seed % 5, missing=cfg.get("missing", 0.0))
     dataset = Dataset(data)
     ev0 = {"op": "RunStart", "n": cfg["n"], "burn": list(cfg["burn"]), "pw": list(cfg["pw"]), "rnd": cfg["rnd"],
            "ann_on": bool(cfg.get("ann")), "ann_spec": ["count", 0], "ann_p": 1, "ann_t0": [1, 1]}
@@ -198,6 +236,10 @@ def run_config(model_name, cfg, seed, workdir, n_ind=6, want_params=False, compa
                 try:
                     if not model.is_initialized:
                         model.initialize(dataset)
+                        if cfg.get("starve") and "tau_mean" in model.state.dag and model.state["tau_mean"].numel() > 1:
+                            tm = model.state["tau_mean"].clone()
+                            tm.reshape(-1)[1] = 150.0
+                            model.state["tau_mean"] = tm
                     ev0.update(outcome="run", nb=int(algo.algo_parameters["n_burn_in_iter"]),
                                na=int((algo.algo_parameters.get("annealing") or {}).get("n_iter") or 0))
                     events.append(ev0)
@@ -315,11 +357,22 @@ class _FitRecorder:
                 return o_set(self_, name, value)
             ModelParameter.compute_update = cu
             State.__setitem__ = setitem
+            # mean cluster responsibilities of the state the update rules are evaluated on (mixture model)
+            expected_probs = None
+            try:
+                if "probs" in state.dag and "nll_regul_ind_sum_ind" in state.dag:
+                    ll = state["nll_regul_ind_sum_ind"]
+                    ll = -(ll.value if hasattr(ll, "value") else ll).double()
+                    if ll.dim() == 2:
+                        expected_probs = torch.softmax(ll.clamp(min=-100.0), dim=1).mean(dim=0)
+            except Exception:  # noqa: BLE001
+                expected_probs = None
             try:
                 return orig_up(state, sufficient_statistics, burn_in=burn_in)
             finally:
                 ModelParameter.compute_update = o_cu
                 State.__setitem__ = o_set
+                rec.noise_rule, rec.probs_rule = closed_forms(state, sufficient_statistics, expected_probs)
         self._patch(model, "update_parameters", update_parameters)
 
         orig_max = algo._maximization_step
@@ -334,7 +387,8 @@ class _FitRecorder:
             power = float(algo.algo_parameters["burn_in_step_power"])
             memoryless, m, consistent = observe_combination(prev, rec.s_k, algo.sufficient_statistics, power)
             rec.events.append({"op": "Maximized", "k": k, "memoryless": memoryless, "m": m, "consistent": consistent,
-                               "burn_flag": rec.burn_flag, "same_stats": rec.same_stats, "steps": rec.steps})
+                               "burn_flag": rec.burn_flag, "same_stats": rec.same_stats, "steps": rec.steps,
+                               "noise_rule": getattr(rec, "noise_rule", "na"), "probs_rule": getattr(rec, "probs_rule", "na")})
         self._patch(algo, "_maximization_step", maximization_step)
 
         orig_temp = algo._update_temperature
@@ -421,7 +475,7 @@ POSTCONDITION Report
 """
 
 
-def validate(events, vars_, params, outdir, tag):
+def validate(events, vars_, params, outdir, tag, closed_forms=False):
     os.makedirs(outdir, exist_ok=True)
     path = os.path.join(outdir, f"{tag}.ndjson")
     with open(path, "w") as f:
@@ -433,7 +487,7 @@ def validate(events, vars_, params, outdir, tag):
         f.write(f"---- MODULE {mod} ----\nEXTENDS SaemTrace\nTrVarSeq == <<{', '.join(chr(34) + v + chr(34) for v in sorted(vars_))}>>\n====\n")
     with open(os.path.join(outdir, mod + ".cfg"), "w") as f:
         f.write(CFG.format(vars=q(vars_), params=q(params)))
-    res = tlc.run(mod, mod + ".cfg", cwd=outdir, workers=1, env={"TRACE_FILE": path}, timeout=1800)
+    res = tlc.run(mod, mod + ".cfg", cwd=outdir, workers=1, env={"TRACE_FILE": path, "CLOSED_FORMS": "1" if closed_forms else "0"}, timeout=1800)
     m = re.search(r'<<"REJECTED-AT", (\d+), (\d+)>>', res.out)
     if m:
         return False, int(m.group(1)) - 1, res
